@@ -99,6 +99,15 @@ def gen_cases(tier, seed):
                       rnd.choice([[2, 2, 2], [1, 1, 2], [2, 1, 2], [2, 2, 1]]),
                       "outside": 3.0, "pattern": "random", "layout": "C",
                       "vseed": rnd.randrange(2 ** 32), "huge": True})
+    # directed: blocks of 256 voxels and more (vote counters wider than 8 bits), few labels,
+    # one of them dominating
+    for k, factors in enumerate([[8, 8, 4], [16, 16, 2], [8, 8, 8], [4, 8, 8], [16, 4, 4],
+                                 [7, 7, 6]]):
+        for dtn in ("uint8", "uint32"):
+            cases.append({"method": "majority", "dtype": dtn,
+                          "shape": [1, factors[2] * 2, factors[1] + 1, factors[0] * 2],
+                          "factors": factors, "outside": None, "pattern": "dominant",
+                          "layout": "C", "vseed": 100 + k})
     # unsupported factor triples
     for method, factors in [("average", [3, 1, 1]), ("average", [1, 4, 2]),
                             ("average", [0, 1, 1]), ("average", [2, 2]),
@@ -130,6 +139,8 @@ def _values(case, count):
             return [rnd.choice(pool) for _ in range(count)]
         return [dx.f32(rnd.uniform(-1, 1) * 2.0 ** rnd.randint(-10, 30)) for _ in range(count)]
     lo, hi = dx.INT_RANGE[dt]
+    if pat == "dominant":
+        return [7 if rnd.random() < 0.9 else rnd.choice([3, 9, 200]) for _ in range(count)]
     if pat == "limits":
         pool = [lo, lo + 1, hi, hi - 1, hi - 2, (hi + 1) // 2, (hi + 1) // 2 - 1]
     elif pat == "dyadic":
@@ -271,6 +282,10 @@ def run_case(case):
     factors = case["factors"]
     ds = _downscaler(case)
     obs = {"methods": {case["method"]: 1}, "dtypes": {case["dtype"]: 1}, "voxels": 0,
+           "majority_blocks_of_256_voxels_or_more": int(
+               case["method"] == "majority" and len(case["factors"]) == 3 and all(
+                   isinstance(f, int) for f in case["factors"])
+               and case["factors"][0] * case["factors"][1] * case["factors"][2] >= 256),
            "large_arrays": int(bool(case.get("large"))),
            "ties": 0, "overhang_blocks": 0, "unsupported_probes": 0}
     before = base.tobytes()
@@ -407,4 +422,6 @@ def gates(obs, tier):
         "arrays_beyond_64_per_axis": obs.get("large_arrays", 0) > 0,
         "arrays_beyond_2_20_voxels": obs.get("huge_arrays", 0) > 0,
         "blocks_containing_nan": obs.get("blocks_with_nan", 0) > 100,
+        "majority_blocks_of_256_voxels_or_more": obs.get(
+            "majority_blocks_of_256_voxels_or_more", 0) >= 8,
     }
